@@ -14,6 +14,7 @@ def fmat(a):
 
 
 def check(run, driver):
+    from causationentropy.core.information.conditional_mutual_information import conditional_mutual_information as dispatcher
     from causationentropy.core.information.conditional_mutual_information import kde_conditional_mutual_information, knn_conditional_mutual_information
     from causationentropy.core.information.entropy import kde_entropy
     from causationentropy.core.information.mutual_information import kde_mutual_information, knn_mutual_information
@@ -46,6 +47,11 @@ def check(run, driver):
         X0, Y0 = X.copy(), Y.copy()
         if Z is None:
             val = float(knn_mutual_information(X, Y, metric=metric, k=k))
+            for nm, v2 in (("knn_conditional_mutual_information(Z=None)", float(knn_conditional_mutual_information(X, Y, None, metric=metric, k=k))),
+                           ("dispatcher(Z=None)", float(dispatcher(X, Y, None, method="knn", metric=metric, k=k)))):
+                if not (v2 == val or (nm.startswith("dispatcher") and v2 == max(0.0, val))):
+                    run.prop_fail("the kNN estimate without conditioning set depends on the entry point used", {"N": N, "dx": dx, "dy": dy, "k": k, "metric": metric, "X": X0, "Y": Y0},
+                                  {"estimator": "knn", "metric": metric, "conditional": False, "entry": nm}, {"knn_mutual_information": val, nm: v2})
         else:
             val = float(knn_conditional_mutual_information(X, Y, Z, metric=metric, k=k))
         case = {"N": N, "dx": dx, "dy": dy, "dz": dz, "k": k, "metric": metric, "X": X0, "Y": Y0, "Z": Z}
